@@ -432,3 +432,74 @@ func mimcPkgs(srcRoot string) []string {
 	}
 	return out
 }
+
+// ---------------- marshal contracts ----------------
+
+func applySections(s string, keep map[string]bool) string {
+	var out []string
+	skip := false
+	for _, line := range strings.Split(s, "\n") {
+		if strings.HasPrefix(line, "//#if ") {
+			skip = !keep[strings.TrimSpace(line[6:])]
+			continue
+		}
+		if strings.HasPrefix(line, "//#endif") {
+			skip = false
+			continue
+		}
+		if !skip {
+			out = append(out, line)
+		}
+	}
+	return strings.TrimRight(strings.Join(out, "\n"), "\n") + "\n"
+}
+
+func marshalPkgs(srcRoot string) []string {
+	files, _ := filepath.Glob(filepath.Join(srcRoot, "ecc", "*", "marshal.go"))
+	var out []string
+	for _, f := range files {
+		b, _ := os.ReadFile(f)
+		if strings.Contains(string(b), "mCompressedInfinity") {
+			out = append(out, "./"+strings.TrimPrefix(filepath.Dir(f), srcRoot+"/"))
+		}
+	}
+	return out
+}
+
+func writeMarshal(repoRoot, srcRoot, verifRoot string, check bool) int {
+	b, err := os.ReadFile(filepath.Join(verifRoot, "contracts", "marshal", "marshal.go.tmpl"))
+	if err != nil {
+		return 0
+	}
+	stale := 0
+	for _, pk := range marshalPkgs(srcRoot) {
+		rel := strings.TrimPrefix(pk, "./")
+		src, _ := os.ReadFile(filepath.Join(srcRoot, rel, "marshal.go"))
+		pkg := ""
+		fmt.Sscanf(after(string(src), "\npackage "), "%s", &pkg)
+		mask3 := strings.Contains(string(src), "mUncompressedInfinity")
+		s := applySections(string(b), map[string]bool{"MASK3": mask3, "MASK2": !mask3})
+		s = strings.ReplaceAll(s, "PKG", pkg)
+		s = strings.ReplaceAll(s, "POINT", "G1")
+		s = strings.ReplaceAll(s, "COORD", "fp.Element")
+		s = strings.ReplaceAll(s, "SIZEC", "SizeOfG1AffineCompressed")
+		s = strings.ReplaceAll(s, "SIZEU", "SizeOfG1AffineUncompressed")
+		s = strings.ReplaceAll(s, "BCOEFF", "bCurveCoeff")
+		if rel == "ecc/stark-curve" {
+			s = strings.ReplaceAll(s, "p.X*p.X*p.X + bCurveCoeff", "p.X*p.X*p.X + p.X + bCurveCoeff")
+		}
+		dst := filepath.Join(repoRoot, rel, "zz_verif_contracts_marshal.go")
+		if check {
+			cur, _ := os.ReadFile(dst)
+			if string(cur) != s {
+				fmt.Println("stale:", dst)
+				stale++
+			}
+			continue
+		}
+		os.MkdirAll(filepath.Dir(dst), 0o755)
+		os.WriteFile(dst, []byte(s), 0o644)
+		fmt.Println("wrote", dst)
+	}
+	return stale
+}
